@@ -105,7 +105,8 @@ func (i *Index) Encode() ([]byte, error) {
 	if err := utils.Compress(buf, compressed); err != nil {
 		return nil, err
 	}
-	return compressed.Bytes(), nil
+	// copy: the pooled buffer is reused as soon as this function returns
+	return bytes.Clone(compressed.Bytes()), nil
 }
 
 func (i *Index) Decode(index []byte) error {
